@@ -25,6 +25,10 @@ pub struct BondWorld {
 }
 
 pub fn build_bond_world(period_ns: u64, grace: u64) -> Result<BondWorld, String> {
+    build_hub(period_ns, grace, DAY_NS, START_TIME_S * 1_000_000_000)
+}
+
+pub fn build_hub(period_ns: u64, grace: u64, duration_ns: u64, genesis_ns: u64) -> Result<BondWorld, String> {
     let mut w = World::new_with_fund(&USERS, &["ampwhale", "bwhale", "unlisted", "uwhale"], B_FUND);
     w.setup_pool_network();
     w.setup_vault_network();
@@ -34,8 +38,8 @@ pub fn build_bond_world(period_ns: u64, grace: u64) -> Result<BondWorld, String>
         period_ns,
         Decimal::one(),
         grace,
-        DAY_NS,
-        START_TIME_S * 1_000_000_000,
+        duration_ns,
+        genesis_ns,
         native("uwhale"),
     )?;
     let lair = w.whale_lair.clone().unwrap();
